@@ -28,7 +28,6 @@ inductive ErrClass
   | invalidUri    -- autobahn.wamp.exception.InvalidUriError (subclass of ProtocolError? no: of Error) — kept apart
   | assertion     -- AssertionError out of a constructor (F3)
   | typeError     -- TypeError (HELLO/WELCOME role features named `self`)
-  | indexError    -- unreachable for well-formed schemas (position beyond the checked length)
   deriving DecidableEq, Repr, Inhabited
 
 structure Err where
@@ -41,7 +40,6 @@ def ErrClass.name : ErrClass → String
   | .invalidUri => "InvalidUriError"
   | .assertion => "AssertionError"
   | .typeError => "TypeError"
-  | .indexError => "IndexError"
 
 /-- the library's own protocol-level errors: what C08 allows `parse` to raise -/
 def ErrClass.allowed : ErrClass → Bool
